@@ -2,7 +2,6 @@ use std::convert::{TryFrom, TryInto};
 
 use regex::Regex;
 use smol_str::SmolStr;
-use unicode_segmentation::UnicodeSegmentation;
 
 use crate::features::side_by_side::ansifill::ODD_PAD_CHAR;
 
@@ -79,11 +78,17 @@ impl<T> Default for FormatStringPlaceholderDataAnyPlaceholder<T> {
     }
 }
 
+// The lengths are used to lay out columns: count terminal cells, not characters (a format string
+// may contain double-width characters).
+fn display_width(s: &str) -> usize {
+    crate::ansi::measure_text_width(s)
+}
+
 impl<T> FormatStringPlaceholderDataAnyPlaceholder<T> {
     pub fn only_string(s: &str) -> Self {
         Self {
             suffix: s.into(),
-            suffix_len: s.graphemes(true).count(),
+            suffix_len: display_width(s),
             ..Self::default()
         }
     }
@@ -176,9 +181,9 @@ pub fn parse_line_number_format<'a>(
         let match_ = captures.get(0).unwrap();
         let prefix = SmolStr::new(&format_string[offset..match_.start()]);
         let prefix = expand_first_prefix(prefix);
-        let prefix_len = prefix.graphemes(true).count();
+        let prefix_len = display_width(&prefix);
         let suffix = SmolStr::new(&format_string[match_.end()..]);
-        let suffix_len = suffix.graphemes(true).count();
+        let suffix_len = display_width(&suffix);
         format_data.push(FormatStringPlaceholderData {
             prefix,
             prefix_len,
@@ -206,13 +211,13 @@ pub fn parse_line_number_format<'a>(
     if offset == 0 {
         let prefix = SmolStr::new("");
         let prefix = expand_first_prefix(prefix);
-        let prefix_len = prefix.graphemes(true).count();
+        let prefix_len = display_width(&prefix);
         // No placeholders
         format_data.push(FormatStringPlaceholderData {
             prefix,
             prefix_len,
             suffix: SmolStr::new(format_string),
-            suffix_len: format_string.graphemes(true).count(),
+            suffix_len: display_width(format_string),
             ..Default::default()
         })
     }
